@@ -10,10 +10,10 @@ import (
 func Table() map[string]*Property {
 	t := map[string]*Property{}
 	add := func(p *Property) { t[p.ID] = p }
-	fsGhost := []vc.GhostVar{{Name: "fs", Type: "map[string]string"}, {Name: "foff", Type: "map[*os.File]int"}, {Name: "handledBy", Type: "Generator"}, {Name: "synced", Type: "bool"}, {Name: "prefixesFrozen", Type: "bool"}}
+	fsGhost := []vc.GhostVar{{Name: "fs", Type: "map[string]string"}, {Name: "foff", Type: "map[*os.File]int"}, {Name: "handledBy", Type: "Generator"}, {Name: "synced", Type: "bool"}, {Name: "prefixesFrozen", Type: "bool"}, {Name: "renamedUnsaved", Type: "bool"}}
 
 	// the same ghost state, with types that resolve in package main
-	mainGhost := []vc.GhostVar{{Name: "fs", Type: "map[string]string"}, {Name: "foff", Type: "map[string]int"}, {Name: "handledBy", Type: "derive.Generator"}, {Name: "synced", Type: "bool"}, {Name: "prefixesFrozen", Type: "bool"}}
+	mainGhost := []vc.GhostVar{{Name: "fs", Type: "map[string]string"}, {Name: "foff", Type: "map[string]int"}, {Name: "handledBy", Type: "derive.Generator"}, {Name: "synced", Type: "bool"}, {Name: "prefixesFrozen", Type: "bool"}, {Name: "renamedUnsaved", Type: "bool"}}
 
 	add(&Property{
 		ID: "C11",
@@ -57,10 +57,11 @@ func Table() map[string]*Property {
 	add(&Property{
 		ID:     "C07",
 		Groups: []Group{{Layer: "D", Pkg: "derive", Ghost: fsGhost, Funcs: []string{"derive.pkg.Filename", "derive.pkg.Print", "derive.pkg.Delete", "derive.program.generatePackage", "derive.program.Generate",
-			"derive.finder.Visit", "derive.getInputTypes", "derive.newCall", "derive.newFileInfos"}}},
+			"derive.finder.Visit", "derive.getInputTypes", "derive.newCall", "derive.newFileInfos", "derive.pkg.Add", "derive.newPackage"}}},
 		Assumptions: []string{
 			"decided: the file effects (R1 Print leaves exactly the printer's bytes in derived.gen.go whatever it held before, incl. a longer or truncated remnant; R2 on every successful return the derived file was written from the last package state or removed; Print is reached only with content, Delete only without)",
 			"NOT decided by any contract within reach: that the argument types goderive reads at the call sites are independent of the old derived.gen.go - that is go/types run over user sources plus the old file (loader, AllowErrors); the stale-signature case (deriveSort(deriveKeys(m)) after m's key type changes) found by hand in the design round is therefore outside this check",
+			"decided since the fix a0f26d4: R4 the calls of a file are registered in source order whether or not the old derived.gen.go defines them (newPackage, obligation registration-in-source-order); with R3 (newFileInfos never scans derived.gen.go) the sequence of registrations is a function of the user sources and of go/types' classification of each call only",
 			"newFileInfos never scanning or handing out derived.gen.go is verified (find.go), given isDerivedFile(p) <==> the last path element is derived.gen.go",
 		},
 		Trusted: fsTrusted,
@@ -220,11 +221,13 @@ func Table() map[string]*Property {
 	add(&Property{
 		ID: "C01",
 		Groups: []Group{
-			{Layer: "D", Pkg: "derive", Funcs: []string{"derive.typesMap.isGenerated", "derive.typesMap.ToGenerate", "derive.typesMap.Done", "derive.typesMap.Generating", "derive.pkg.Done", "derive.pkg.Generate"}},
+			{Layer: "D", Pkg: "derive", Funcs: []string{"derive.typesMap.isGenerated", "derive.typesMap.ToGenerate", "derive.typesMap.Done", "derive.typesMap.Generating", "derive.pkg.Done", "derive.pkg.Generate",
+				// the name table every lookup goes through: a call resolves to the function registered for exactly its (assignable) type list
+				"derive.eq", "derive.typesMap.nameOf", "derive.typesMap.newName", "derive.typesMap.SetFuncName", "derive.typesMap.GetFuncName"}},
 			{Layer: "O", NoVC: true, Funcs: c01, Only: textLevel},
 		},
 		Assumptions: []string{
-			"PARTIAL. Decided: (1) the work list (Layer D): ToGenerate returns exactly the registered type lists that are not generated yet, in registration order; Done says none is left; pkg.Generate returns successfully only with every plugin's work list empty, so every helper requested through GetFuncName/SetFuncName was handed to its plugin's Generate (termination not shown); one name per type list and one type list per name is C11; (2) text level (Layer G+O): on every non-error path of every generator function under contract (31 of 33 plugins; not gostring, do) the emitted text parses, keeps its operand holes intact, type-checks under a prelude synthesised from the path condition with exactly the imports whose alias closures were called (go/types reports unused and missing imports), has the signature its callers assume (header) and binds no generator identifier under a user-chosen name (capture)",
+			"PARTIAL. Decided: (1) the work list (Layer D): ToGenerate returns exactly the registered type lists that are not generated yet, in registration order; Done says none is left; pkg.Generate returns successfully only with every plugin's work list empty, so every helper requested through GetFuncName/SetFuncName was handed to its plugin's Generate (termination not shown); one name per type list and one type list per name (the name table: eq, nameOf, newName, SetFuncName, GetFuncName) is verified here as well as under C11; (2) text level (Layer G+O): on every non-error path of every generator function under contract (31 of 33 plugins; not gostring, do) the emitted text parses, keeps its operand holes intact, type-checks under a prelude synthesised from the path condition with exactly the imports whose alias closures were called (go/types reports unused and missing imports), has the signature its callers assume (header) and binds no generator identifier under a user-chosen name (capture)",
 			"NOT decided: call discovery (derive/find.go: nested derive calls, calls in closures, package-level vars, _test files, the curried one-argument forms), loading (derive/load.go), qualified names of same-named imported packages (derive/qual.go), types that only become inferable after an earlier generation pass (the generatePackage loop is under the file-effect contracts of C07/C10 only), gostring and do",
 			"A-cfg, A-param: a schematic program with opaque types stands for every instantiation; arities enumerated up to 3",
 			"the open findings (emitted code that does not parse or type-check although goderive exits 0) are genuine violations of this property and are listed as known findings",
